@@ -1,6 +1,7 @@
 package proxy
 
 import (
+	"net/http"
 	"reservoir/cache"
 	"time"
 )
@@ -135,4 +136,40 @@ func HarnessCacheTroubleAnywhere() {
 	}
 	vAssert(c.answered && c.status == 200, "c09.interference.good-answer-became-error")
 	vAssert(string(c.body) == "OK" || string(c.body) == "NEW", "c09.interference.body-of-no-version")
+}
+
+// HarnessRangeRetryStoreTrouble: the origin refuses the client's Range (416), answers the
+// proxy's retry without Range with a good 200, and the cache has trouble storing that answer
+// (an injected file-system fault at any call, or a full cache): the client still gets what the
+// origin's good answer gives it - never the 416 the proxy itself had already worked around.
+func HarnessRangeRetryStoreTrouble() {
+	backend := symChoice(2)
+	limit := int64(1 << 30)
+	e := newEnv(backend, limit)
+	h := hdr("Cache-Control", "max-age=60", "Etag", "\"a\"")
+	// the origin refuses every ranged request and answers every range-less one
+	e.o.script = []originResp{{status: 200, header: h, body: []byte("0123456789")}}
+	e.o.answer = func(req *http.Request) originResp {
+		if len(req.Header["Range"]) > 0 {
+			return originResp{status: 416, header: hdr(), body: []byte("range-error")}
+		}
+		return originResp{status: 200, header: h, body: []byte("0123456789")}
+	}
+	vClockFreeze(true)
+	if backend == backendFile {
+		vFSFaults(1)
+	}
+	c := e.plain(newReq("GET", "o.test", "/q", "", hdr("Range", "bytes=2-5")))
+	vReach("answered")
+	vAssert(c.answered, "c16.request-unanswered")
+	if vFSFaulted() {
+		vReach("store-trouble")
+	}
+	vAssert(c.status != 416 && c.status < 500, "c09.range-retry.good-answer-became-error")
+	if c.status == 206 {
+		vAssert(string(c.body) == "2345", "c07.206-body-is-not-the-announced-slice")
+	}
+	if c.status == 200 {
+		vAssert(string(c.body) == "0123456789", "c09.range-retry.body-of-no-version")
+	}
 }
